@@ -104,10 +104,18 @@ static int idx_of(const void *e)
     if ((uintptr_t)e < (uintptr_t)pool || d >= sizeof(struct elem) * (size_t)N || d % sizeof(struct elem)) return -1;
     return (int)(d / sizeof(struct elem));
 }
+static int sort_cookie, wrong_priv, find_key, find_roles_bad;
+/* the comparison function of find: "comparing the user-supplied object with objects in the list" -- the sought object (here a bare key,
+ * not an element) is the first argument, a list member the second */
+static int cmp_find(const void *a, const void *b, void *p)
+{
+    if (a != (const void *)&find_key || p != (void *)&find_key) { find_roles_bad++; return 1; }
+    return find_key - ((const struct elem *)b)->val;
+}
 static int cmp_elem(const void *a, const void *b, void *p)
 {
     int d = ((const struct elem *)a)->val - ((const struct elem *)b)->val;
-    (void)p;
+    if (p != (void *)&sort_cookie) wrong_priv++;
     if (MIXED) return d < 0 ? INT_MIN : d > 0 ? INT_MAX : 0;      /* the mixed configurations also use a comparator with extreme magnitudes */
     return d;
 }
@@ -220,7 +228,9 @@ static void w_apply(mc_op_t o)
     case O_SORT: {
         int r, ab2;
         if (m_len[a] > 1) MC_COUNT(K_SORT_GT1);
-        SHIM_CALL(ab, cstl_dlist_sort(&L[a], cmp_elem, NULL));
+        wrong_priv = 0;
+        SHIM_CALL(ab, cstl_dlist_sort(&L[a], cmp_elem, &sort_cookie));
+        if (!ab) MC_CHECK(PC12, wrong_priv == 0, "sort called the comparison function %d times with a private pointer other than the caller's", wrong_priv);
         if (ab) break;
         collect(a, 0, -1, &ab2, &r);
         if (ab2) { ab = ab2; break; }
@@ -318,9 +328,10 @@ static void w_audit(void)
             }
             /* find: first match in the chosen direction, for every value of the alphabet and one absent value */
             for (j = 0; j <= 4; j++) {
-                struct elem probe; void *f = NULL; int exp = -1;
-                memset(&probe, 0, sizeof probe); probe.val = j; probe.idx = -1;
-                SHIM_CALL(ab, f = cstl_dlist_find(&L[l], &probe, cmp_elem, NULL, dir ? CSTL_DLIST_FOREACH_DIR_REV : CSTL_DLIST_FOREACH_DIR_FWD));
+                void *f = NULL; int exp = -1;
+                find_key = j; find_roles_bad = 0;
+                SHIM_CALL(ab, f = cstl_dlist_find(&L[l], &find_key, cmp_find, &find_key, dir ? CSTL_DLIST_FOREACH_DIR_REV : CSTL_DLIST_FOREACH_DIR_FWD));
+                MC_CHECK(PC12, find_roles_bad == 0, "find called the comparison function %d times with something other than (sought object, list member, caller's private pointer)", find_roles_bad);
                 for (k = 0; k < m_len[l]; k++) { int i = dir ? m_seq[l][m_len[l] - 1 - k] : m_seq[l][k]; if (vals[i] == j) { exp = i; break; } }
                 MC_CHECK(PC12, !ab && f == (exp >= 0 ? (void *)&pool[exp] : NULL), "find(list %d, value %d, %s) returned element %d, first match is %d", l, j, dir ? "REV" : "FWD", f ? idx_of(f) : -1, exp);
             }
